@@ -820,6 +820,47 @@ def nested_dag_already_set_up(k, is_async):
     return out
 
 
+# ------------------------------------------------------------------------------ C02 / C10: an indexed part that does not exist
+def missing_index_is_an_error(k, is_async):
+    """consumer(p["absent"]), consumer(t[5]) on a 2-tuple, a, b, c = pair(twz_unpack_to=3) and twz_active=p["absent"]: the
+    indexed part of the producer's result does not exist: the call fails (KeyError / IndexError inside), the consumer is
+    never entered with a made-up value and a flagged node is not silently switched off"""
+    out = []
+    for what in ("key", "pos", "unpack", "flag"):
+        entered = []
+
+        def prod():
+            return {"present": 1} if what in ("key", "flag") else (1, 2)
+        px = tawazi.xn(named(prod, "sc_mi_p%d%s" % (k, what)))
+
+        def cons(*a):
+            entered.append(a)
+            return ("cons",) + a
+        cx = tawazi.xn(named(cons, "sc_mi_c%d%s" % (k, what)))
+
+        def desc():
+            if what == "key":
+                return cx(px()["absent"])
+            if what == "pos":
+                return cx(px()[5])
+            if what == "unpack":
+                a_, b_, c_ = px(twz_unpack_to=3)
+                return cx(a_, c_)
+            return cx(twz_active=px()["absent"])
+        try:
+            d = tawazi.dag(named(desc, "sc_mi%d%s" % (k, what)), is_async=is_async)
+        except BaseException as e:  # noqa: BLE001
+            out.append(("C02", "a DAG using an indexed result (%s) does not build: %s" % (what, type(e).__name__)))
+            continue
+        st = in_thread((lambda: asyncio.run(d())) if is_async else (lambda: d()), 10)
+        prop = "C10" if what == "flag" else "C02"
+        if entered:
+            out.append((prop, "%s: the indexed part of the producer's result does not exist, yet the consumer was entered with %r" % (what, entered[0])))
+        elif st[0] == "ok":
+            out.append((prop, "%s: the indexed part of the producer's result does not exist and the call returned %r instead of failing%s" % (what, st[1], " (the flagged node was silently switched off)" if what == "flag" else "")))
+    return out
+
+
 def run(pid, tier, seed, res):
     n = 2 if tier == "quick" else 8
     for k in range(n):
@@ -846,6 +887,11 @@ def run(pid, tier, seed, res):
                 res.hit("C16", "monitor", msg, dict(engine="scenario", kind="monitor", scenario="concurrent_builds_stress", k=k))
             for msg in concurrent_calls_stress(k, 2.5 if tier == "quick" else 15.0):
                 res.hit("C16", "monitor", msg, dict(engine="scenario", kind="monitor", scenario="concurrent_calls_stress", k=k))
+        if pid in ("C02", "C10"):
+            for fl in (False, True):
+                res.evaluations += 1
+                for p_, msg in missing_index_is_an_error(2 * k + int(fl), fl):
+                    res.hit(p_, "monitor", msg, dict(engine="scenario", kind="monitor", scenario="missing_index_is_an_error", k=k, is_async=fl))
         if pid in ("C01", "C07") and k == 0:
             for fl in (False, True):
                 res.evaluations += 1
